@@ -210,3 +210,8 @@ def run(check, tier):
     decide_many(check, [(n, c, dict(key=n.split("[")[0])) for n, c in cases()], logic=None,
                 timeout_s=60 if tier == "quick" else 300, validate=2 if tier == "quick" else 5)
     special_values(check)
+    # special values by symbolic selector through the real code (engine X)
+    from ..xh import run_jobs
+    run_jobs(check, "harness/c20_special.py", [dict(fn="special", timeout=300, key="special_values"),
+                                               dict(fn="special_preset", timeout=300, key="special_values_presets"),
+                                               dict(fn="special__reach", timeout=60)])
